@@ -490,6 +490,8 @@ def witness_search(pid, repo=None, timeout=300):
     rc, out, err, dt = sh(["cargo", "run", "--offline", "--release", "--example", "vwitness", pid], cwd=sc, timeout=timeout)
     m = re.search(r"^WITNESS (\S+) (.*)$", out, re.M)
     if not m:
+        if "NO-WITNESS" not in out:
+            sys.stderr.write("witness search did not run (build failure or timeout):\n" + (err or "")[-1500:] + "\n")
         return None
     return ("failing input found by the native witness search (real library built from the current tree, "
             "witness/witness.rs, `cargo run --release --example vwitness " + pid + "`):\n  " + m.group(2) + "\n")
